@@ -91,9 +91,15 @@ TRUSTED = ["pickle and gzip are exercised, not modelled (the Lean dictionary is 
            "edge order; the real child order may differ and is compared as a set (the likelihood is order-independent, C02)",
            "the patched clock (a counter) stands in for time.time in loop/chain cases; CLI cases use the real clock with limits "
            "inf and 0 only, where any positive iteration duration gives the same schedule"]
-ASSUMPTIONS = ["'reachable tree' = reachable through the public editing API the samplers use, every clone created with at least "
-               "one data point (a clone that never received data has no _data entry and does not restore: from_dict leaves its "
-               "payload None; no sampler creates such a clone)",
+ASSUMPTIONS = ["'reachable tree' = reachable through the public editing API the way the samplers use it (Legal of Proofs/StoreInv.lean): every "
+               "clone is created with at least one data point (a clone that never received data has no _data entry and does not "
+               "restore: from_dict leaves its payload None; no sampler creates such a clone), and create_root_node - which names the "
+               "new clone num_nodes - is only called on trees built by placements alone or relabelled since the last prune / graft "
+               "(on a pruned, un-relabelled tree it can re-use a live name; which names survive a prune depends on the stored child "
+               "order, so there original and restored copy may legitimately differ)",
+               "after a round trip the stored order of a clone's children may be permuted (edge_list order vs adjacency order): names "
+               "handed out by a later relabel_nodes / add_subtree agree up to that permutation; directly after restoring, names, labels "
+               "and node_last_added_to must be identical, after further edits clones are matched by the data they hold",
                "likelihood equalities on exact dyadic data inside the underflow window (values >= 1/8, <= 8 data points)",
                "graph indices of nodes created after a round trip may differ between original and restored copy (rustworkx "
                "free-list order); compared up to that renaming, names must agree"]
@@ -317,11 +323,11 @@ def gen_op(rnd, w, n, outliers_on, force=None):
             return ("add", dp, rnd.choice(nodes))
         if outliers_on and r < 0.42:
             return ("out", dp)
-        if not (w.smc_ok and dense(t)):  # create_root_node names the clone num_nodes: the samplers only create clones in trees whose
+        if nodes and not (w.smc_ok and dense(t)):  # create_root_node names the clone num_nodes: the samplers only create clones in trees whose
             return ("add", dp, rnd.choice(nodes))  # names are 0..K-1 (`Legal` / `Dense` of Proofs/StoreInv.lean)
         return ("new", [dp], sorted(rnd.sample(t.roots, rnd.randint(0, len(t.roots))), key=name_key))
     if kind == "new":
-        if not free or not (w.smc_ok and dense(t)):
+        if not free or (nodes and not (w.smc_ok and dense(t))):
             return None  # only legal when the names are 0..K-1 (after relabel_nodes or pure SMC placements)
         dp = rnd.choice(free)
         roots = t.roots
